@@ -196,6 +196,12 @@ class ClientGenerator:
                 tmp_out_dir_for_diff.mkdir(parents=True, exist_ok=True)
                 tmp_core_dir_for_diff.mkdir(parents=True, exist_ok=True)  # Ensure core temp dir always exists
 
+                # Same __init__.py chain for the core package and its ancestors as the direct path creates
+                current = tmp_core_dir_for_diff
+                while current != tmp_project_root_for_diff:
+                    (current / "__init__.py").touch()
+                    current = current.parent
+
                 # --- Generate files into the temporary structure ---
                 temp_generated_files = []  # Track files generated in temp dir
 
@@ -383,8 +389,9 @@ class ClientGenerator:
                     break
                 current = current.parent
 
-            # If core_dir is outside out_dir structure, ensure its __init__.py exist too
-            if not str(core_dir).startswith(str(out_dir)):
+            # Ensure the __init__.py chain of the core package too (a core nested below out_dir needs its
+            # intermediate packages as much as an external one)
+            if core_dir != out_dir:
                 current = core_dir
                 while current != project_root:
                     init_path = current / "__init__.py"
